@@ -165,6 +165,7 @@ class FormulaMaterializer(metaclass=FormulaMaterializerMeta):
 
         self.factor_cache: dict[str, EvaluatedFactor] = {}
         self.encoded_cache: dict[Union[str, tuple[str, bool]], Any] = {}
+        self.encoder_state_cache: dict[str, tuple[Factor.Kind, dict[str, Any]]] = {}
 
     def _init(self) -> None:
         pass  # pragma: no cover
@@ -779,6 +780,7 @@ class FormulaMaterializer(metaclass=FormulaMaterializerMeta):
                             factor
                         )  # pragma: no cover; it is not currently possible to reach this sentinel
                 spec.encoder_state[factor.expr] = (factor.metadata.kind, encoder_state)
+                self.encoder_state_cache[factor.expr] = spec.encoder_state[factor.expr]
 
                 # Only encode once for encodings where we can just drop a field
                 # later on below.
@@ -788,6 +790,15 @@ class FormulaMaterializer(metaclass=FormulaMaterializerMeta):
                     else (factor.expr, reduced_rank)
                 )
                 self.encoded_cache[cache_key] = encoded
+
+            # When the encoding came from the cache (e.g. the factor was already
+            # encoded for another part of a structured formula), the state of
+            # that encoding still needs to be recorded on this spec.
+            if (
+                factor.expr not in spec.encoder_state
+                and factor.expr in self.encoder_state_cache
+            ):
+                spec.encoder_state[factor.expr] = self.encoder_state_cache[factor.expr]
         else:
             encoded = as_columns(
                 factor.values
